@@ -119,9 +119,24 @@ PROPS = {
              COMMON_ASSUME + ["the kernel may coalesce chunks despite TCP_NODELAY and pauses: the segmentation written is recorded, the one the collector's reads saw is not observable without a hook",
                               "'connection closed' is decided with a 15 s wall-clock bound (normal: < 1 ms)"],
              "runtime monitor: own framer + reference decoder over real TCP connections with controlled segmentation; race detector"),
+    "C01": P(True, (8, 16), 16, (1500, 7200), 1500, 1000, "exploration",
+             "one evaluation = one template (fresh id, 1..40 elements from the IANA/reverse/Antrea registries + a user-registered enterprise "
+             "supplying signed8/16/64, float32 and fixed-length octetArray) + one data set (1 record .. as many as fit one message; boundary "
+             "pools for every type; variable lengths 0/1/254/255/256 and beyond) sent by a real exporting process to a real collecting process "
+             "over one of 8 transport configurations {tcp, udp, tls, dtls} x {127.0.0.1, ::1} (tls6 with client certificates; certificates "
+             "generated per run). What arrives on GetMsgChan() must carry the configured observation domain, the same fields (id, enterprise, "
+             "type, length, name; order), the same number of records and bit-identical values. tcp/tls: every successful send must be "
+             "delivered; udp/dtls: datagrams may be lost, a case is re-sent up to 3 times and delivery is required for messages <= 8000 bytes. "
+             "Non-trivial = delivered and (>= 2 fields or >= 2 records or a boundary length); distinct by (config, elements, values).",
+             COMMON_ASSUME + ["pion/dtls drops records above its 8 KiB receive buffer while Write succeeds: larger DTLS messages are sent, compared if they arrive, only counted if not",
+                              "a 65535-byte value cannot travel end to end (header + set header + prefix leave 65512): that boundary is C15's and C09's"],
+             "runtime monitor: sent-vs-delivered comparison over real sockets on 8 transport configurations; race detector"),
 }
 
 LEVEL_TEXT = {
+    "C01": "Held on every case explored on each of the 8 transport configurations, with both processes running their real goroutines "
+           "under the race detector. The property is quantified over inputs and configurations; this is direct observation of the API "
+           "boundary the user relies on.",
     "C11": "Held on every (stream, segmentation) explored, including every 1- and 2-cut of short streams and an invalid message at every "
            "position. Segmentation is a scheduling dimension the suite never varies; driving it from the client socket is the strongest "
            "observation available without hooking the reader.",
